@@ -136,6 +136,7 @@ type Sim struct {
 	harnessErr           string
 	spinning             int
 	stuckProbed, probing bool
+	idleAdvance          int // escalating clock advances tried in the current stall
 	startTime            time.Time
 	simTime              time.Duration
 }
@@ -429,14 +430,30 @@ func (s *Sim) root() {
 					s.spawnShutdown(g)
 					continue
 				}
-				if !g.shutdownDone {
-					s.harnessErr = fmt.Sprintf("Commander.Close() of generation %d does not return although every request has been answered", g.Idx)
-					break
-				}
+			}
+			// Nothing is runnable although work is outstanding. Before calling that a stall, let
+			// simulated time pass (discrete-event style: the engine may be waiting for a timer --
+			// a linger delay, a retry back-off -- that only fires when the clock moves).
+			if s.idleAdvance < len(idleSteps) {
+				d := idleSteps[s.idleAdvance]
+				s.idleAdvance++
+				s.sched.Logf("step %d: idle, clock +%s", s.sched.step, d)
+				s.count("clock.advanced-while-idle")
+				simSleep(d)
+				continue
+			}
+			if g := s.cur; s.generationFinished() && g.shutdown && !g.shutdownDone {
+				s.harnessErr = fmt.Sprintf("Commander.Close() of generation %d does not return although every request has been answered", g.Idx)
+				break
 			}
 			s.stuck()
+			if s.probing {
+				s.probing = false
+				continue
+			}
 			break
 		}
+		s.idleAdvance = 0
 		// only waiters of a mutex whose holder is blocked for good (e.g. in Append after the runner
 		// has been closed) are left: nothing can make progress any more
 		if onlyLockWaiters(ps) {
@@ -505,6 +522,9 @@ func (s *Sim) generationFinished() bool {
 
 // stuck is reached when nothing is parked, the generation is not finished and no
 // fault is pending: some request is blocked in engine code for ever.
+// idleSteps: how far the clock is moved, step by step, while nothing is runnable (71 s in all).
+var idleSteps = []time.Duration{time.Millisecond, 10 * time.Millisecond, 100 * time.Millisecond, time.Second, 10 * time.Second, time.Minute}
+
 func (s *Sim) stuck() {
 	var blocked []string
 	inLock := false
